@@ -8,6 +8,7 @@ import Hive.Monitor
 import Hive.MonitorTrav
 import Hive.Stack
 import Hive.Ledger
+import Hive.MonitorTimed
 
 open Lean Hive
 
@@ -126,6 +127,39 @@ def handleTraverse (j : Json) : Except String Json := do
   | .error, "error" => pure (Json.mkObj [("diff", strs []), ("mon", strs [])])
   | m, k => pure (Json.mkObj [("diff", strs [s!"outcome: model={m.kind} impl={k}"]), ("mon", strs [])])
 
+/-- C11 function-level record: a run of pre-step phases over generated request / price files -/
+def handleTimed (st : DState) (j : Json) : Except String Json := do
+  let sim : Sim ← getField j "sim"
+  let parentTbl : List (Cell × Cell) ← optField j "parent" []
+  let timeout : Int ← getField j "timeout"
+  let fleets : Bool ← getField j "fleets"
+  let rows : List Timed.ReqRow ← getField j "rows"
+  let prices : List Timed.PriceRow ← getField j "prices"
+  let namesTbl : List (Nat × List StationId) ← getField j "names"
+  let picks : List (List RequestId) ← getField j "picks"
+  let obs : List Timed.StepObs ← getField j "obs"
+  let env := ({ parent := parentTbl } : Oracle).env st.mechs
+  let cfg : Timed.Cfg := { timeout := timeout, fleets := fleets }
+  let names (k : Nat) : List StationId := match namesTbl.find? (fun p => p.1 == k) with
+    | some p => p.2
+    | none => []
+  let model := Timed.run env cfg names (picks.take obs.length) { prices := .ofList prices, requests := .ofList rows } sim
+  let mut diffs : List String := []
+  let mut k := 0
+  for (m, o) in model.zip obs do
+    if m.time != o.time then diffs := diffs ++ [s!"step {k} time: model={m.time} impl={o.time}"]
+    if m.adds != o.adds then diffs := diffs ++ [s!"step {k} admitted: model={m.adds} impl={o.adds}"]
+    if m.cancels != o.cancels then diffs := diffs ++ [s!"step {k} cancelled: model={m.cancels} impl={o.cancels}"]
+    if m.present != o.present then diffs := diffs ++ [s!"step {k} requests present: model={m.present} impl={o.present}"]
+    if m.prices != o.prices then
+      let bad := (m.prices.zip o.prices).filter fun (a, b) => a != b
+      diffs := diffs ++ [s!"step {k} prices: {bad.length} differ, first: model={repr (bad.head?.map (·.1))} impl={repr (bad.head?.map (·.2))}"]
+    k := k + 1
+  let initial := (Timed.observe { sim := sim, log := [] }).prices
+  let mon := Timed.violClock sim.time sim.dt obs ++ Timed.violRequests cfg sim.time sim.dt picks rows obs ++
+    Timed.violPrices names sim.time sim.dt prices initial obs
+  pure (Json.mkObj [("diff", strs (diffs.take 12)), ("mon", strs (mon.take 12))])
+
 /-- function-level record: one mechatronics operation -/
 def handleMech (j : Json) : Except String Json := do
   let m : Mech ← getField j "mech"
@@ -229,6 +263,10 @@ def handle (st : DState) (line : String) : DState × Json :=
     | "apply" | "update" | "tick" | "pre" =>
       match handlePhase st op j with
       | .ok (l, r) => ({ st with ledger := l }, withId r)
+      | .error e => (st, withId (Json.mkObj [("error", Json.str e)]))
+    | "timed" =>
+      match handleTimed st j with
+      | .ok r => (st, withId r)
       | .error e => (st, withId (Json.mkObj [("error", Json.str e)]))
     | "mech" =>
       match handleMech j with
